@@ -37,19 +37,11 @@ func ruleGeneration(r *Report) {
 				if len(b.Instrs) == 0 {
 					continue
 				}
-				iff, isI := b.Instrs[len(b.Instrs)-1].(*ssa.If)
-				if !isI {
-					continue
-				}
-				bo, isB := iff.Cond.(*ssa.BinOp)
-				if !isB {
-					continue
-				}
 				cur := isFieldLoad("simpledb.DB", "currentGeneration")
-				gt := (bo.Op == token.GTR && bo.X == st.Val && cur(bo.Y)) || (bo.Op == token.LSS && cur(bo.X) && bo.Y == st.Val) ||
-					(bo.Op == token.GEQ && bo.X == st.Val && cur(bo.Y)) || (bo.Op == token.LEQ && cur(bo.X) && bo.Y == st.Val)
-				if gt && (b.Succs[0] == s.Block || b.Succs[0].Dominates(s.Block)) {
-					ok = true
+				for _, v := range ifCmpForms(b) {
+					if (v.Op == token.GTR || v.Op == token.GEQ) && v.X == st.Val && cur(v.Y) && (v.T == s.Block || dominates(v.T, s.Block)) {
+						ok = true
+					}
 				}
 			}
 		})
@@ -251,7 +243,7 @@ func ruleRWMemstore(r *Report) {
 			for _, b := range liveBlocks(fn) {
 				if v, g, isS, _, okT := sentinelTest(b); okT && al[v] && g == "memstore.KeyNotFound" {
 					for _, t := range tomb {
-						if isS == t.Block || isS.Dominates(t.Block) {
+						if isS == t.Block || dominates(isS, t.Block) {
 							hit = true
 						}
 					}
@@ -441,14 +433,6 @@ func ruleLatestWinsArgmax(r *Report) {
 			if len(b.Instrs) == 0 {
 				continue
 			}
-			iff, isI := b.Instrs[len(b.Instrs)-1].(*ssa.If)
-			if !isI {
-				continue
-			}
-			bo, isB := iff.Cond.(*ssa.BinOp)
-			if !isB {
-				continue
-			}
 			isElem := func(v ssa.Value) bool {
 				u, okU := v.(*ssa.UnOp)
 				if !okU || u.Op != token.MUL {
@@ -458,8 +442,11 @@ func ruleLatestWinsArgmax(r *Report) {
 				return okI && paramOrigin(ia.X) != nil && paramOrigin(ia.X).Name() == "context"
 			}
 			isMax := func(v ssa.Value) bool { _, okP := v.(*ssa.Phi); return okP }
-			if (bo.Op == token.GTR && isElem(bo.X) && isMax(bo.Y)) || (bo.Op == token.LSS && isMax(bo.X) && isElem(bo.Y)) {
-				ok = true
+			for _, v := range ifCmpForms(b) {
+				// the reading "element > running maximum" — its holds-side is where the index is replaced
+				if v.Op == token.GTR && isElem(v.X) && isMax(v.Y) {
+					ok = true
+				}
 			}
 		}
 		// result: values[maxIndex]
@@ -783,7 +770,7 @@ func positiveValue(fn *ssa.Function, at Site, x ssa.Value, depth int) bool {
 	}
 	// dominated by a zero test of x (or of a call of the same method on the same receiver) whose zero edge leaves
 	for _, b := range liveBlocks(fn) {
-		if len(b.Instrs) == 0 || !b.Dominates(at.Block) || b == at.Block {
+		if len(b.Instrs) == 0 || !dominates(b, at.Block) || b == at.Block {
 			continue
 		}
 		iff, ok := b.Instrs[len(b.Instrs)-1].(*ssa.If)
@@ -811,7 +798,7 @@ func positiveValue(fn *ssa.Function, at Site, x ssa.Value, depth int) bool {
 			continue
 		}
 		_ = zeroSucc
-		if otherSuccB == at.Block || otherSuccB.Dominates(at.Block) {
+		if otherSuccB == at.Block || dominates(otherSuccB, at.Block) {
 			return true
 		}
 	}
